@@ -15,6 +15,7 @@ import Golib.Proof.C04HeapSpec
 import Golib.Proof.C04Generic
 import Golib.Proof.C04SliceSeq
 import Golib.Proof.C04Client
+import Golib.Proof.C04Overflow
 
 namespace Golib.C04
 
@@ -184,7 +185,7 @@ theorem c04_heap_index_inv {cmp} {m : HMem} {h : Nat} (hI : IdxInv m h) :
 /-- `Heap[T]` with `*Element[T]` handles is a priority queue over a multiset of handles, along
 EVERY operation sequence.  The client-visible calls are `HOp` (`Init(vs, c)` incl. re-`Init` with
 the repaired detaching and with ANOTHER comparator `c`, `Push`, `PushElement`, `Pop`, `Peek`,
-`Len`, `Remove(e)`, `Fix(e)`, `e.Value = v; Fix(e)`, `PopAll`, each on one of two heaps sharing
+`Len`, `Remove(e)`, `Fix(e)`, `e.Value = v; Fix(e)`, `e.Value = v; Remove(e)`, `PopAll`, each on one of two heaps sharing
 one memory of elements); `stepH` runs the model of the Go code on `HState` = the element memory
 plus `h.cmp` of both heaps.  The specification (`Proof/C04HeapSpec.lean`) keeps, per heap, the
 list of LIVE handles and the comparator, and a value per handle:
@@ -354,6 +355,62 @@ theorem c04_pull_cursors (c : HClient) (s : HSpec) (R : Rel c.st s) (j : Nat) (h
     exact ⟨c', r, hrun, h1, h2, h3 ▸ R', h4⟩
   · have hget : c.curs[j]? = some c.curs[j] := List.getElem?_eq_getElem hj
     exact ⟨{ c with curs := c.curs.set j ((c.curs[j]).1, false) }, by simp [stepC, hget], rfl⟩
+
+/-- `e.Value = v; h.Remove(e)` — removing an element whose value was changed WITHOUT `Fix` (the use
+the package doc blesses: "`Fix` is equivalent to, but less expensive than, calling `Remove`
+followed by a `Push` of the new value"). `Remove(e)` is correct for ANY current value of `e`: it
+never relies on `e` being in the right place, only on the rest of the array being a heap except
+at `e`, and re-sites the element moved into the hole by `fix` (down, ELSE up — a one-direction
+shortcut decided by comparing the moved element with `e`'s new value, seed C04-H, is not this
+function).
+(1) one call: the invariant held before the value table was changed arbitrarily at a live `e`;
+    then `Remove(e)` does not panic, exactly `e` leaves (`e :: values' ~ values`), `e` is detached
+    (index −1, no owner), the other heap, the allocation and the (new) values are untouched and
+    the invariant holds again.
+(2) as the op `setRemove h e v` it is part of `c04_heap_handles` (`Refines` over all op lists:
+    spec step = new value, live handles minus `e`; client obligation as for `setFix`: `e` is not
+    live in the OTHER heap). Anything else done to a heap that holds a misplaced element (Pop,
+    Push, Remove of another element …) remains client misuse, outside `specPre`.
+(3) `Slice`: `s.Values[k] = v; s.Remove(k)` (driver lines `set k v`, `rm k`) returns `v`, removes
+    exactly it and leaves `Values` heap-ordered, for any `v` and any index in range. -/
+theorem c04_remove_after_change {cm : Nat → Int → Int → Bool} {m0 : HMem} {h e : Nat}
+    (hs : SWO (cm h)) (hh : h < 2) (hok : MemOK cm m0) (hown : m0.own.get e = some h)
+    (val' : Golib.C13.IM) (hv : ∀ x, x ≠ e → val'.get x = m0.val.get x) :
+    (∃ m', ({ m0 with val := val' } : HMem).remove (cm h) h e = some m' ∧ MemOK cm m' ∧
+      (e :: m'.arr h).Perm (m0.arr h) ∧ m'.arr (oth h) = m0.arr (oth h) ∧ m'.val = val' ∧
+      m'.fresh = m0.fresh ∧ m'.idx.get e = -1 ∧ m'.own.get e = none) ∧
+    (∀ (st : HState) (s : HSpec) (hf : Fin 2) (v : Int), Rel st s → specPre s (.setRemove hf e v) →
+      ∃ st' r, stepH st (.setRemove hf e v) = some (st', r) ∧ specOK s (.setRemove hf e v) r ∧
+        Rel st' (specStep s (.setRemove hf e v) r)) ∧
+    (∀ cmp, SWO cmp → ∀ (s0 : List Int) (k : Nat) (v : Int), Heap cmp s0 → k < s0.length →
+      ∃ s', Slice.remove cmp (s0.set k v) (k : Int) = some (s', v, true) ∧ Heap cmp s' ∧
+        (v :: s').Perm (s0.set k v)) :=
+  ⟨remove_change_spec hs hh hok hv hown, fun st s hf v R hp => step_refines R _ hp,
+   fun cmp hc s0 k v h hk => slice_remove_after_set hc s0 k v h hk⟩
+
+/-- Go's 64-bit `int` in `down` / `std_down` (`j1 := 2*i + 1; if j1 >= n || j1 < 0 { break }`).
+`down64` = the loop with two's-complement index arithmetic:
+(1) for every size below `2^62` (`|i| < 2^62`, `n ≤ 2^62` — every heap with a non-zero-size
+    element type) it IS the ideal-integer loop `down` that all other theorems are about, for every
+    container;
+(2) when `2*i + 1` wraps around (`2^62 ≤ i < 2^63`: only a zero-size element type such as
+    `Slice[struct{}]` with `len(Values)` near `math.MaxInt` gets there) the guard ends the loop at
+    once: no comparison, no swap, no panic — `Fix(i)`/`Remove(i)` in the upper half of such a
+    slice are safe;
+(3) without the guard (`down64NoGuard`, seed C04-G) the wrapped index is negative, passes `j < n`
+    and the slice is indexed with it: a panic for every `2^62 ≤ i < n`. -/
+theorem c04_down_no_overflow :
+    (∀ {σ : Type} (o : Ops σ) (f : Nat) (s : σ) (i n : Int),
+      -4611686018427387904 ≤ i → i < 4611686018427387904 → n ≤ 4611686018427387904 →
+      down64 o f s i n = down o f s i n) ∧
+    (∀ {σ : Type} (o : Ops σ) (f : Nat) (s : σ) (i n : Int),
+      4611686018427387904 ≤ i → i < 9223372036854775808 → down64 o (f + 1) s i n = some (s, i)) ∧
+    (∀ (cmp : Int → Int → Bool) (f : Nat) (s : List Int) (i n : Int),
+      4611686018427387904 ≤ i → i < n → n < 9223372036854775808 →
+      down64NoGuard (sliceOps cmp) (f + 1) s i n = none) :=
+  ⟨fun o f s i n h1 h2 h3 => down64_eq_down o f s i n h1 h2 h3,
+   fun o f s i n h1 h2 => down64_guard o f s i n h1 h2,
+   fun cmp f s i n h1 h2 h3 => down64NoGuard_panics cmp f s i n h1 h2 h3⟩
 
 /-- Non-vacuity of `specPre`: after `Push(7)` on heap A returned handle 0 and `Pop` returned it,
 handle 0 is allocated and live nowhere, so `B.PushElement(0)` is a call the client may make; and
